@@ -21,6 +21,7 @@ from nvlib import engine as E
 from nvlib.extract import TieBroken
 
 CLANG = "clang-14"
+SIZEOF_POINTER = 8
 
 LEAN_PRELUDE = r'''
 /-! C integer conversions used by the regenerated guards (value-preserving when the operand is in range) -/
@@ -248,6 +249,11 @@ class Tr:
             m = re.match(r"char ?\[(\d+)\]", t)
             if m:
                 return m.group(1)
+            t = t.replace("const ", "").strip()
+            if t.endswith("*"):
+                return str(SIZEOF_POINTER)        # the sanitizer build the harness links against is LP64
+            if t in CTYPES:
+                return str(CTYPES[t][2] // 8)
             raise OutOfGrammar("sizeof %s" % t)
         if k == "UnaryOperator":
             op = n.get("opcode")
@@ -284,6 +290,15 @@ class Tr:
                 b = self.int_expr(n["inner"][1])
                 f = "Int.tdiv" if op == "/" else "Int.tmod"
                 return self.wrap(ctype(n), "%s (%s) (%s)" % (f, a, b))
+            if op in (">>", "<<"):
+                # shift by a literal count: arithmetic shift right = floor division, left = multiplication (wrapped to the type)
+                cnt = const_eval(n["inner"][1])
+                if cnt is None or not (0 <= cnt < 31):
+                    raise OutOfGrammar("shift by a non-literal count")
+                a = self.int_expr(n["inner"][0])
+                if op == ">>":
+                    return self.wrap(ctype(n), "(%s) / %d" % (a, 2 ** cnt))
+                return self.wrap(ctype(n), "(%s) * %d" % (a, 2 ** cnt))
             if op == "&":
                 # only `x & <literal mask>` on non-negative operands (code & 0x01)
                 b = strip(n["inner"][1])
@@ -493,6 +508,7 @@ SITES = [
     # value stack checks
     Site("stack_push_undefineds", "src/stack.c", "push_undefineds", [], "***Stack overflow!"),
     Site("stack_push_some_svalues", "src/stack.c", "push_some_svalues", [], "***Stack overflow!"),
+    Site("stack_merge_arg_lists", "lib/lpc/functional.c", "merge_arg_lists", [], "***Stack overflow!"),
     Site("stack_transfer_push", "src/stack.c", "transfer_push_some_svalues", [], "***Stack overflow!"),
     Site("stack_push_number", "src/stack.c", "push_number", [], "***Stack overflow!"),
     # error(): clamp of the vsnprintf return value (present after the fix)
@@ -713,6 +729,315 @@ def _sub_of_self(n, var):
     return subtree_has(n, lambda m: m.get("kind") == "BinaryOperator" and m.get("opcode") == "-" and
                        subtree_has(m["inner"][1], lambda q: _is_ref(q, var)) and
                        not subtree_has(m["inner"][0], lambda q: _is_ref(q, var)))
+
+
+# ---------------------------------------------------------------------------------------------------------------
+# call_function_pointer(), FP_EFUN: the second efun dispatcher.  Statement ORDER (bound arguments merged, default
+# pushed, THEN the number of arguments to check is taken), the `n` rule, the CHECK_TYPES loop, the stack-room test of
+# merge_arg_lists (absent: part of the open finding).
+
+def _preorder(n, out):
+    out.append(n)
+    for c in n.get("inner", []):
+        if isinstance(c, dict):
+            _preorder(c, out)
+
+
+def extract_funptr_dispatch(bdir):
+    fn = ast_function(bdir, "lib/lpc/functional.c", "call_function_pointer")
+    cases = []
+    _walk(fn, lambda n, _: cases.append(n) if n.get("kind") == "CaseStmt" else None)
+    mine = [c for c in cases if subtree_has(c, lambda m: m.get("kind") == "CallExpr" and callee_name(m) == "call_efun")]
+    # the innermost case statement that contains the call (stacked labels nest)
+    mine = [c for c in mine if not any(d is not c and subtree_has(c, lambda m: m is d) for d in mine)]
+    if len(mine) != 1:
+        raise TieBroken("funptr:case", "%d case statements of call_function_pointer contain call_efun()" % len(mine))
+    nodes = []
+    _preorder(mine[0], nodes)
+    order = []
+    defs = {}
+    for n in nodes:
+        k = n.get("kind")
+        if k == "CallExpr" and callee_name(n) == "merge_arg_lists":
+            order.append("merge")
+        elif k == "UnaryOperator" and n.get("opcode") == "++" and _is_ref(n["inner"][0], "num_arg"):
+            order.append("default")
+        elif k == "VarDecl" and n.get("name") == "n" and n.get("inner") and _is_ref(n["inner"][0], "num_arg"):
+            order.append("ncap")
+        elif k == "BinaryOperator" and n.get("opcode") == "=" and _is_ref(n["inner"][0], "n") and _is_ref(n["inner"][1], "num_arg"):
+            order.append("ncap")
+        elif k == "IfStmt" and subtree_has(n["inner"][1], lambda m: m.get("kind") == "BinaryOperator" and m.get("opcode") == "=" and
+                                           _is_ref(m["inner"][0], "n")) and "nrule" not in order:
+            asg = []
+            _walk(n["inner"][1], lambda m, _: asg.append(m) if m.get("kind") == "BinaryOperator" and m.get("opcode") == "=" and
+                  _is_ref(m["inner"][0], "n") else None)
+            tr = Tr()
+            tr.param("n", "int")
+            try:
+                cond = tr.bool_expr(n["inner"][0])
+                tr2 = Tr()
+                val = tr2.int_expr(asg[0]["inner"][1])
+            except OutOfGrammar as e:
+                raise TieBroken("funptr:nrule", "left the grammar: %s" % e)
+            if [p[0] for p in tr.params] != ["n", "max_arg"] or [p[0] for p in tr2.params] != ["min_arg"]:
+                raise TieBroken("funptr:nrule", "unexpected operands %s / %s" % ([p[1] for p in tr.params], [p[1] for p in tr2.params]))
+            defs["nrule"] = lean_def("fpEfunUseMin", tr, cond, "call_function_pointer FP_EFUN: `if (%s) n = %s`" % (
+                c_text(n["inner"][0]), c_text(asg[0]["inner"][1])))
+            order.append("nrule")
+        elif k == "ForStmt" and subtree_has(n, lambda m: m.get("kind") == "CallExpr" and callee_name(m) == "bad_argument"):
+            parts = n.get("inner", [])
+            init, cond = parts[0], parts[2]
+            calls = []
+            _walk(n, lambda m, _: calls.append(m) if m.get("kind") == "CallExpr" and callee_name(m) == "bad_argument" else None)
+            try:
+                if not (strip(init).get("kind") == "BinaryOperator" and strip(init).get("opcode") == "=" and _is_ref(strip(init)["inner"][0], "j")):
+                    raise OutOfGrammar("loop init")
+                start = const_eval(strip(init)["inner"][1])
+                trc = Tr()
+                trc.param("j", "int")
+                lc = trc.bool_expr(cond)
+                args = calls[0]["inner"][1:]
+                trs = Tr()
+                trs.param("sp", "svalue_t *")
+                trs.param("num_arg", "int")
+                trs.param("j", "int")
+                slot = trs.ptr_expr(args[0])
+                ty = strip(args[1])
+                while ty.get("kind") == "ImplicitCastExpr":
+                    ty = strip(ty["inner"][0])
+                if ty.get("kind") != "ArraySubscriptExpr":
+                    raise OutOfGrammar("type argument is not instrs[i].type[..]")
+                trt = Tr()
+                trt.param("j", "int")
+                tidx = trt.int_expr(ty["inner"][1])
+                tra = Tr()
+                tra.param("j", "int")
+                argno = tra.int_expr(args[2])
+            except OutOfGrammar as e:
+                raise TieBroken("funptr:loop", "CHECK_TYPES loop left the grammar: %s" % e)
+            if start is None or [p[0] for p in trc.params] != ["j", "n"] or [p[0] for p in trs.params] != ["sp", "num_arg", "j"] or \
+                    [p[0] for p in trt.params] != ["j"] or [p[0] for p in tra.params] != ["j"] or len(calls) != 1:
+                raise TieBroken("funptr:loop", "unexpected shape of the CHECK_TYPES loop")
+            defs["loop"] = "\n".join([
+                "/-- call_function_pointer FP_EFUN: `for (j = %d; ...` -/\ndef fpEfunLoopStart : Int := %d\n" % (start, start),
+                lean_def("fpEfunLoopCond", trc, lc, "loop condition `%s`" % c_text(cond)),
+                lean_def("fpEfunChkSlot", trs, slot, "the stack slot tested: `%s` (svalue units)" % c_text(args[0]), "Int"),
+                lean_def("fpEfunChkTypeIdx", trt, tidx, "index into instrs[i].type[]: `%s`" % c_text(ty["inner"][1]), "Int"),
+                lean_def("fpEfunChkArgNo", tra, argno, "argument number reported: `%s`" % c_text(args[2]), "Int")])
+            order.append("loop")
+        elif k == "CallExpr" and callee_name(n) == "call_efun":
+            order.append("call")
+    for need in ("merge", "default", "ncap", "nrule", "loop", "call"):
+        if need not in order:
+            raise TieBroken("funptr:" + need, "statement `%s` of the FP_EFUN case not found (found %s)" % (need, order))
+    # merge_arg_lists: is there any test against end_of_stack before `sp += num_arr_arg`?
+    mfn = ast_function(bdir, "lib/lpc/functional.c", "merge_arg_lists")
+    checked = subtree_has(mfn, lambda m: m.get("kind") == "DeclRefExpr" and m["referencedDecl"]["name"] == "end_of_stack") or \
+        subtree_has(mfn, lambda m: m.get("kind") == "CallExpr" and callee_name(m) in ("too_deep_error", "stack_overflow_error"))
+    out = ["/-- call_function_pointer(), case FP_EFUN: the statements that matter, in SOURCE ORDER -/\ndef fpEfunOrder : List String :=\n  [%s]\n" %
+           ", ".join('"%s"' % o for o in order), defs["nrule"], defs["loop"],
+           "/-- merge_arg_lists() tests the stack room before `sp += num_arr_arg` -/\ndef mergeArgListsStackCheck : Bool := %s\n" % (
+               "true" if checked else "false")]
+    return "\n".join(out), {"order": order, "merge_checked": checked}
+
+
+# ---------------------------------------------------------------------------------------------------------------
+# data-dependent indices of the array builders (lib/lpc/array.c): binary search of subtract_array, heap indices of
+# alist_sort / intersect_array, merge counter of intersect_array
+
+def _assigns(fn, var):
+    out = []
+    _walk(fn, lambda n, _: out.append(n) if n.get("kind") == "BinaryOperator" and n.get("opcode") == "=" and _is_ref(n["inner"][0], var) else None)
+    return out
+
+
+def _one_def(name, site, nodes, params, doc, ret="Int", cond=False):
+    """all nodes must translate to the same Lean text over the given parameter names"""
+    texts = set()
+    tr = None
+    for n in nodes:
+        tr = Tr()
+        for p in params:
+            tr.param(p, "int")
+        try:
+            texts.add(tr.bool_expr(n) if cond else tr.int_expr(n))
+        except OutOfGrammar as e:
+            raise TieBroken(site, "%s left the grammar: %s" % (name, e))
+        if [p[0] for p in tr.params] != list(params):
+            raise TieBroken(site, "%s: unexpected operands %s" % (name, [p[1] for p in tr.params]))
+    if len(texts) != 1:
+        raise TieBroken(site, "%s: %d sites found / they disagree: %s" % (name, len(nodes), sorted(texts)))
+    return lean_def(name, tr, texts.pop(), "%s: `%s` (%d site%s)" % (doc, c_text(nodes[0]), len(nodes), "s" if len(nodes) > 1 else ""),
+                    "Bool" if cond else ret)
+
+
+def extract_search_indices(bdir):
+    out = []
+    # --- subtract_array: binary search over the sorted subtrahend
+    fn = ast_function(bdir, "lib/lpc/array.c", "subtract_array")
+    h_as = _assigns(fn, "h")
+    l_as = _assigns(fn, "l")
+    o_as = _assigns(fn, "o")
+    h_init = [n["inner"][1] for n in h_as if subtree_has(n["inner"][1], lambda m: _is_ref(m, "size"))]
+    h_next = [n["inner"][1] for n in h_as if subtree_has(n["inner"][1], lambda m: _is_ref(m, "o"))]
+    l_init = [n["inner"][1] for n in l_as if const_eval(n["inner"][1]) is not None]
+    l_next = [n["inner"][1] for n in l_as if subtree_has(n["inner"][1], lambda m: _is_ref(m, "o"))]
+    o_mid = [n["inner"][1] for n in o_as if subtree_has(n["inner"][1], lambda m: _is_ref(m, "l"))]
+    o_init = [n["inner"][1] for n in o_as if not subtree_has(n["inner"][1], lambda m: _is_ref(m, "l"))]
+    site = "search:subtract_array"
+    if len(h_init) != 1 or len(o_init) != 1 or len(l_init) != 1 or len(h_as) != len(h_init) + len(h_next) or len(l_as) != len(l_init) + len(l_next) \
+            or len(h_next) < 1 or len(h_next) != len(l_next) or len(o_mid) != len(h_next):
+        raise TieBroken(site, "binary search statements not recognised (h %d, l %d, o %d assignments)" % (len(h_as), len(l_as), len(o_as)))
+    # o = (h = size - 1) >> 1 : the shifted operand must be the assignment to h
+    oi = strip(o_init[0])
+    if not (oi.get("kind") == "BinaryOperator" and oi.get("opcode") == ">>" and const_eval(oi["inner"][1]) is not None and
+            strip(oi["inner"][0]).get("kind") == "BinaryOperator" and strip(oi["inner"][0]).get("opcode") == "=" and
+            _is_ref(strip(oi["inner"][0])["inner"][0], "h")):
+        raise TieBroken(site, "initial probe is not `o = (h = ..) >> k`: %s" % c_text(oi))
+    out.append(_one_def("bsHInit", site, h_init, ["size"], "subtract_array: h ="))
+    out.append("/-- subtract_array: `o = (h = ..) >> %d` -/\ndef bsOInit (h : Int) : Int := trunc32 (h / %d)\n" % (
+        const_eval(oi["inner"][1]), 2 ** const_eval(oi["inner"][1])))
+    out.append("/-- subtract_array: `l = %d` -/\ndef bsLInit : Int := %d\n" % (const_eval(l_init[0]), const_eval(l_init[0])))
+    out.append(_one_def("bsHNext", site, h_next, ["o"], "subtract_array (d < 0): h ="))
+    out.append(_one_def("bsLNext", site, l_next, ["o"], "subtract_array (d > 0): l ="))
+    out.append(_one_def("bsMid", site, o_mid, ["l", "h"], "subtract_array: o ="))
+    ifs = []
+    _walk(fn, lambda n, _: ifs.append(n["inner"][0]) if n.get("kind") == "IfStmt" and subtree_has(n["inner"][0], lambda m: _is_ref(m, "l")) and
+          subtree_has(n["inner"][0], lambda m: _is_ref(m, "h")) else None)
+    if len(ifs) != len(h_next):
+        raise TieBroken(site, "%d `if (l > h)` tests for %d loops" % (len(ifs), len(h_next)))
+    out.append(_one_def("bsDone", site, ifs, ["l", "h"], "subtract_array: not found when", cond=True))
+    # the element compared is svt + o (both loops)
+    probes = []
+    _walk(fn, lambda n, _: probes.append(n) if n.get("kind") == "CallExpr" and callee_name(n) == "alist_cmp" else None)
+    if len(probes) != len(h_next) or not all(Tr().leaf_text(p["inner"][2]) == "(svt+o)" for p in probes):
+        raise TieBroken(site, "the probed element is not `svt + o` in every loop")
+    # --- heap indices: alist_sort and intersect_array
+    ups, c1s, c2s, g1s, g2s = [], [], [], [], []
+    for fname in ("alist_sort", "intersect_array"):
+        f2 = ast_function(bdir, "lib/lpc/array.c", fname)
+        ups += [n["inner"][1] for n in _assigns(f2, "parix")]
+        c1 = [n["inner"][1] for n in _assigns(f2, "child1")]
+        c1s += [x for x in c1 if subtree_has(x, lambda m: _is_ref(m, "curix"))]
+        c2s += [n["inner"][1] for n in _assigns(f2, "child2")]
+        conds = []
+        _walk(f2, lambda n, _: conds.append(n) if n.get("kind") == "BinaryOperator" and n.get("opcode") == "<" and
+              (_is_ref(n["inner"][0], "child1") or _is_ref(n["inner"][0], "child2")) else None)
+        g1s += [c["inner"][1] for c in conds if _is_ref(c["inner"][0], "child1")]
+        g2s += [c["inner"][1] for c in conds if _is_ref(c["inner"][0], "child2")]
+    site = "search:heap"
+    if not (len(ups) >= 2 and len(c1s) == 2 and len(c2s) == 2 and len(g1s) == 2 and len(g2s) == 2):
+        raise TieBroken(site, "heap statements: parix %d child1 %d child2 %d guards %d/%d" % (len(ups), len(c1s), len(c2s), len(g1s), len(g2s)))
+    out.append(_one_def("heapParent", site, ups, ["curix"], "sift-up: parix ="))
+    out.append(_one_def("heapChild1", site, c1s, ["curix"], "sift-down: child1 ="))
+    out.append(_one_def("heapChild2", site, c2s, ["child1"], "sift-down: child2 ="))
+    # every use of sv_tab[child2] / sv_tab[child1] is behind `child < <size of the table>`: the guard operand is the table size
+    for g, fname_sz in zip(g1s + g2s, ["size", "a2s", "size", "a2s"]):
+        if not _is_ref(g, fname_sz):
+            raise TieBroken(site, "a child index is compared with `%s`, expected `%s`" % (c_text(g), fname_sz))
+    # --- intersect_array: `if (++i >= a1s) goto settle_business`
+    f3 = ast_function(bdir, "lib/lpc/array.c", "intersect_array")
+    adv = []
+    _walk(f3, lambda n, _: adv.append(n["inner"][0]) if n.get("kind") == "IfStmt" and subtree_has(n["inner"][0], lambda m: _is_ref(m, "a1s")) and
+          subtree_has(n["inner"][0], lambda m: m.get("kind") == "UnaryOperator" and m.get("opcode") == "++") else None)
+    if len(adv) != 1:
+        raise TieBroken("search:intersect", "%d `++i >= a1s` tests" % len(adv))
+    tr = Tr()
+    tr.param("i", "int")
+    try:
+        c = tr.bool_expr(adv[0])
+    except OutOfGrammar as e:
+        raise TieBroken("search:intersect", "left the grammar: %s" % e)
+    if [p[0] for p in tr.params] != ["i", "a1s"]:
+        raise TieBroken("search:intersect", "unexpected operands %s" % [p[1] for p in tr.params])
+    out.append(lean_def("isectExhausted", tr, c, "intersect_array: after the pre-increment, stop when `%s`" % c_text(adv[0])))
+    return "\n".join(out)
+
+
+# ---------------------------------------------------------------------------------------------------------------
+# f_switch(): the start-offset table, the initial step, and the SHAPE of the search loop (which updates of l / d and
+# which tests against end_tab / SWITCH_CASE_SIZE occur, in source order)
+
+def extract_switch(bdir):
+    fn = ast_function(bdir, "lib/lpc/operator.c", "f_switch")
+    # static size_t off_tab[] = { k * SWITCH_CASE_SIZE, ... }
+    decls = []
+    _walk(fn, lambda n, _: decls.append(n) if n.get("kind") == "VarDecl" and n.get("name") == "off_tab" else None)
+    if len(decls) != 1 or not decls[0].get("inner"):
+        raise TieBroken("switch:off_tab", "off_tab[] with an initialiser not found")
+    init = decls[0]["inner"][0]
+    mult = []
+    for el in init.get("inner", []):
+        e = strip(el)
+        while e.get("kind") in ("ImplicitCastExpr",):
+            e = strip(e["inner"][0])
+        if not (e.get("kind") == "BinaryOperator" and e.get("opcode") == "*"):
+            raise TieBroken("switch:off_tab", "element is not `k * SWITCH_CASE_SIZE`: %s" % c_text(el))
+        k = const_eval(e["inner"][0])
+        if k is None:
+            raise TieBroken("switch:off_tab", "multiplier is not a literal: %s" % c_text(el))
+        mult.append(k)
+    # d = (int)(off_tab[i] + SWITCH_CASE_SIZE) >> 1
+    dinit = [n["inner"][1] for n in _assigns(fn, "d") if subtree_has(n["inner"][1], lambda m: _is_ref(m, "off_tab"))]
+    if len(dinit) != 1:
+        raise TieBroken("switch:dinit", "%d initialisations of d from off_tab[]" % len(dinit))
+    tr = Tr()
+    try:
+        dx = tr.int_expr(dinit[0])
+    except OutOfGrammar as e:
+        raise TieBroken("switch:dinit", "left the grammar: %s" % e)
+    if [p[0] for p in tr.params] != ["off_tab_i"]:
+        raise TieBroken("switch:dinit", "unexpected operands %s" % [p[1] for p in tr.params])
+    # l = current_prog->program + offset + off_tab[i]
+    linit = [n for n in _assigns(fn, "l") if subtree_has(n["inner"][1], lambda m: _is_ref(m, "off_tab"))]
+    if len(linit) != 1:
+        raise TieBroken("switch:linit", "%d initialisations of l from off_tab[]" % len(linit))
+    # the search loop
+    loops = []
+    _walk(fn, lambda n, _: loops.append(n) if n.get("kind") == "ForStmt" else None)
+    if len(loops) != 1:
+        raise TieBroken("switch:loop", "%d for loops in f_switch" % len(loops))
+    nodes = []
+    _preorder(loops[0], nodes)
+    shape = []
+    is_size = lambda m: const_eval(m) is not None or c_text(m).strip("()").startswith("(int)") or subtree_has(m, lambda q: q.get("kind") == "UnaryExprOrTypeTraitExpr")
+    for n in nodes:
+        k = n.get("kind")
+        if k == "CompoundAssignOperator":
+            a, b = n["inner"]
+            if _is_ref(a, "l") and _is_ref(b, "d") and n.get("opcode") in ("+=", "-="):
+                shape.append("l%sd" % n["opcode"])
+            elif _is_ref(a, "d") and n.get("opcode") == ">>=" and const_eval(b) == 1:
+                shape.append("d>>=1")
+            elif _is_ref(a, "l") or _is_ref(a, "d"):
+                shape.append("other:" + c_text(n))
+        elif k == "BinaryOperator":
+            a, b = n["inner"]
+            op = n.get("opcode")
+            if op == "<" and _is_ref(a, "d") and is_size(b):
+                shape.append("d<S")
+            elif op in (">=", "==", ">", "<=", "!=", "<") and _is_ref(a, "l") and _is_ref(b, "end_tab"):
+                shape.append("l%send" % op)
+            elif op == "=" and _is_ref(a, "d"):
+                shape.append("d=%s" % (const_eval(b) if const_eval(b) is not None else c_text(b)))
+    sizes = [n["inner"][1] for n in nodes if n.get("kind") == "BinaryOperator" and n.get("opcode") == "<" and _is_ref(n["inner"][0], "d") and is_size(n["inner"][1])]
+    if not sizes:
+        raise TieBroken("switch:size", "no `d < SWITCH_CASE_SIZE` test in the search loop")
+    trz = Tr()
+    try:
+        sz = set(Tr().int_expr(x) for x in sizes)
+    except OutOfGrammar as e:
+        raise TieBroken("switch:size", "left the grammar: %s" % e)
+    if len(sz) != 1:
+        raise TieBroken("switch:size", "the `d < ..` tests compare with different values: %s" % sorted(sz))
+    out = ["/-- SWITCH_CASE_SIZE as the tests `d < SWITCH_CASE_SIZE` of f_switch see it -/\ndef switchCaseSize : Int :=\n  %s\n" % sz.pop(),
+           "/-- f_switch: multipliers of SWITCH_CASE_SIZE in `off_tab[]` (start entry for size code i) -/\ndef swOffTab : List Int :=\n  [%s]\n" %
+           ", ".join(str(m) for m in mult),
+           lean_def("swDInit", tr, dx, "f_switch: initial step in bytes `d = %s` (SWITCH_CASE_SIZE is the probe constant `switchCaseSize`)" % c_text(dinit[0]), "Int").replace(
+               "(off_tab_i : Int)", "(off_tab_i : Int)"),
+           "/-- f_switch: the updates of `l` / `d` and the tests against `end_tab` / SWITCH_CASE_SIZE inside the search loop, in SOURCE ORDER -/\n"
+           "def swShape : List String :=\n  [%s]\n" % ", ".join('"%s"' % x for x in shape)]
+    return "\n".join(out)
 
 
 NUL_MSG = "*Strings cannot contain 0 bytes."
@@ -1358,10 +1683,19 @@ def generate_all(bdir, tvals):
         parts.append(extract_index_exprs(bdir, tmap, fmap))
         parts.append(extract_reverse_exprs(bdir))
         parts.append(extract_nul_store_rule(bdir))
+
+    def p_search():
+        parts.append(extract_search_indices(bdir))
+        parts.append(extract_switch(bdir))
+
+    def p_funptr():
+        t, d = extract_funptr_dispatch(bdir)
+        parts.append(t)
+        info["funptr_dispatch"] = d
         parts.append(extract_explode(bdir))
         parts.append(extract_builder_sizes(bdir))
 
-    for f in (p_guards, p_stack, p_efuns, p_format, p_explode, p_error):
+    for f in (p_guards, p_stack, p_efuns, p_format, p_explode, p_funptr, p_search, p_error):
         part(f)
     if broken:
         e = broken[0]
